@@ -52,6 +52,10 @@ def _x2dec(x, base=16):
     if isinstance(x, XlError):
         return x
     try:
+        if not (isinstance(x, str) and x and set(x.upper()) <= set(
+                '0123456789ABCDEF'[:base]
+        )):  # int() would also accept a sign, blanks, '_' and a 0x prefix.
+            raise ValueError
         x, y = int(x, base), _xmask[base]
         return (x & ~y) - (y & x)
     except ValueError:
